@@ -273,16 +273,19 @@ class VM:
 # enumeration of small programs
 
 
+def program_at(n, tier, index):
+    """the index-th program of programs(n, tier), computed without materialising the list"""
+    alpha = alphabet(n, tier)
+    items = []
+    for _ in range(n):
+        items.append(alpha[index % len(alpha)])
+        index //= len(alpha)
+    return list(reversed(items))
+
+
 def programs(n, tier):
     """all programs of exactly n instructions over the alphabet (targets = instruction indices 0..n or OUT)"""
-    targets = list(range(n + 1)) + [OUT]
-    alpha = [("nop", None), ("const", None), ("ret", None), ("throw", None)]
-    alpha += [("goto", t) for t in targets] + [("ifz", t) for t in targets]
-    sw = [(t, t) for t in targets[:-1]] + [(t, (t + 1) % (n + 1)) for t in range(n + 1)] + [(0, OUT)]
-    alpha += [("pswitch", list(p)) for p in sw]
-    alpha += [("sswitch", [0, n])]              # sparse switch with a backward and a forward case
-    if tier != "quick":
-        alpha += [("sswitch", list(p)) for p in sw[:n + 2]] + [("fill", [1, 2, 3])]
+    alpha = alphabet(n, tier)
 
     def rec(k):
         if k == 0:
@@ -292,6 +295,18 @@ def programs(n, tier):
             for a in alpha:
                 yield rest + [a]
     return rec(n)
+
+
+def alphabet(n, tier):
+    targets = list(range(n + 1)) + [OUT]
+    alpha = [("nop", None), ("const", None), ("ret", None), ("throw", None)]
+    alpha += [("goto", t) for t in targets] + [("ifz", t) for t in targets]
+    sw = [(t, t) for t in targets[:-1]] + [(t, (t + 1) % (n + 1)) for t in range(n + 1)] + [(0, OUT)]
+    alpha += [("pswitch", list(p)) for p in sw]
+    alpha += [("sswitch", [0, n])]              # sparse switch with a backward and a forward case
+    if tier != "quick":
+        alpha += [("sswitch", list(p)) for p in sw[:n + 2]] + [("fill", [1, 2, 3])]
+    return alpha
 
 
 def try_layouts(n, tier):
